@@ -85,8 +85,9 @@ static void locate(const void *p, int a, int *d, long *o)
     *o = ((uintptr_t)p >= (uintptr_t)ra->buf && (uintptr_t)p - (uintptr_t)ra->buf < ((size_t)1 << 28)) ? (long)((uintptr_t)p - (uintptr_t)ra->buf) : -1;
 }
 
-static const char *FN[] = { "?", "aalloc", "aset", "arelease", "areset", "adata", "aat", "aslice", "aunslice", "asize", "ainit" };
-#define NFN 10
+static const char *FN[] = { "?", "aalloc", "aset", "arelease", "areset", "adata", "aat", "aslice", "aunslice", "asize", "ainit",
+                            "aallocbig", "aalloc0", "aslicebad", "aatbig" };
+#define NFN 14
 static int fn_nargs(int f) { return (f == 7 || f == 8) ? 2 : 1; }
 static void call_fn(int f, cstl_array_t *a1, cstl_array_t *a2)
 {
@@ -102,6 +103,12 @@ static void call_fn(int f, cstl_array_t *a1, cstl_array_t *a2)
     case 8: cstl_array_unslice(a1, a2); break;
     case 9: (void)cstl_array_size(a1); break;
     case 10: cstl_array_init(a1); break;
+    /* error and boundary paths: a size whose byte count cannot be represented, zero elements,
+     * a slice that is refused anyway, an index that is refused anyway */
+    case 11: cstl_array_alloc(a1, SIZE_MAX / 4, 8); break;
+    case 12: cstl_array_alloc(a1, 0, 4); break;
+    case 13: cstl_array_slice(a1, 2, 1, a1); break;
+    case 14: (void)cstl_array_at(a1, SIZE_MAX); break;
     }
 }
 
